@@ -70,6 +70,32 @@ theorem fact_signature_verifier :
       "!jwx.AlgorithmFitsKey(jwa.SignatureAlgorithm(transaction.SigningAlgorithm()), signingKey)"] ∧
     Facts.C06.keyResolverConds = ["err == nil", "err != resolver.ErrNotFound", "err != nil", "err != nil", "vm == nil"] := by decide
 
+/-- `jwx.AlgorithmFitsKey` as the model has it: the curve switch (regenerated curve names and `jwa` constants) is the model's
+    table, its default is `true`; the type switch has exactly the clauses `KeyShape` distinguishes (exact source text); and
+    the verifier's body, statement by statement: `signingKey` is assigned in BOTH branches (embedded / resolved) before the
+    guard, the guard is applied to `signingKey`, and `jws.Verify` gets the same `signingKey`. -/
+theorem fact_alg_fits_key :
+    Facts.C06.algFitsCurves.zip Facts.C06.algFitsCurveAlgs = ecAlgOfCurve ∧
+    Facts.C06.algFitsCurves.length = Facts.C06.algFitsCurveAlgs.length ∧
+    Facts.C06.algFitsCurveDefault = "true" ∧
+    Facts.C06.algFitsTypeCases =
+      ["ed25519.PublicKey => return alg == jwa.EdDSA && len(k) == ed25519.PublicKeySize",
+       "*ed25519.PublicKey => return k != nil && alg == jwa.EdDSA && len(*k) == ed25519.PublicKeySize",
+       "jwk.OKPPublicKey => if k.Crv() == jwa.Ed25519 { return alg == jwa.EdDSA && len(k.X()) == ed25519.PublicKeySize }; return true",
+       "*ecdsa.PublicKey => curve = k.Params().Name", "ecdsa.PublicKey => curve = k.Params().Name",
+       "*ecdsa.PrivateKey => curve = k.Params().Name", "jwk.ECDSAPublicKey => curve = k.Crv().String()",
+       "jwk.ECDSAPrivateKey => curve = k.Crv().String()", "default => return true"] ∧
+    Facts.C06.body_sigVerifier =
+      ["var signingKey crypto2.PublicKey", "if transaction.SigningKey() != nil", "err := transaction.SigningKey().Raw(&signingKey)",
+       "if err != nil", "return err", "else",
+       "pk, err := resolver.ResolvePublicKey(transaction.SigningKeyID(), transaction.Previous())", "if err != nil",
+       "return fmt.Errorf(\"unable to verify transaction signature, can't resolve key by TX ref (kid=%s, tx=%s): %w\", transaction.SigningKeyID(), transaction.Ref().String(), err)",
+       "signingKey = pk",
+       "if !jwx.AlgorithmFitsKey(jwa.SignatureAlgorithm(transaction.SigningAlgorithm()), signingKey)",
+       "return fmt.Errorf(\"signing algorithm %s does not fit the signing key (tx=%s)\", transaction.SigningAlgorithm(), transaction.Ref().String())",
+       "_, err := jws.Verify(transaction.Data(), jws.WithKey(jwa.SignatureAlgorithm(transaction.SigningAlgorithm()), signingKey))",
+       "return err"] := ⟨by decide, by decide, rfl, rfl, rfl⟩
+
 /-- `state.Add` = one read transaction, then — only AFTER it — `addMutex` and one write transaction under the write lock
     whose first statement is the presence re-check. The mutex makes write + rollback handler one critical section, it does
     NOT cover the read transaction: two Adds of the same transaction can both pass phase 1 before either writes, so the
@@ -276,25 +302,98 @@ theorem admitted_prevs_clock (env : Env) (s s' : St) (tx : Tx) (p : Option Nat) 
     (tx.prevs ≠ [] → ∃ u ∈ s.txs, u.ref ∈ tx.prevs ∧ tx.clock = u.clock + 1) :=
   verifyPrevs_spec h.prevsOK
 
-/-- which key: the embedded one, else the key the kid denotes in the signer's document as of the first prev that has one -/
-theorem admitted_signature (env : Env) (s s' : St) (tx : Tx) (p : Option Nat) (h : Admitted env s tx p s') :
-    (tx.jwk = true ∧ env.sigJwk tx = true) ∨
-    (tx.jwk = false ∧ ∃ k, resolveKey env tx.kid tx.prevs = .ok k ∧ env.sigKey tx k = true) := by
+/-- which key: the embedded one, else the key the kid denotes in the signer's document as of the first prev that has one;
+    and the header algorithm FITS THAT KEY (`jwx.AlgorithmFitsKey` applied to the key that is then handed to `jws.Verify`) —
+    for every `Env`, i.e. whatever a JWS library that only compares algorithm family and key type answers. -/
+theorem admitted_alg_fits_key (env : Env) (s s' : St) (tx : Tx) (p : Option Nat) (h : Admitted env s tx p s') :
+    (tx.jwk = true ∧ algorithmFitsKey tx.alg (env.jwkShape tx) = true ∧ env.sigJwk tx = true) ∨
+    (tx.jwk = false ∧ ∃ k, resolveKey env tx.kid tx.prevs = .ok k ∧ algorithmFitsKey tx.alg (env.keyShape k) = true ∧
+      env.sigKey tx k = true) := by
   have := h.sigOK
   unfold verifySig at this
   split at this
   · rename_i hj
     split at this
-    · rename_i hs; exact Or.inl ⟨hj, hs⟩
     · cases this
+    · rename_i hf
+      split at this
+      · rename_i hs; exact Or.inl ⟨hj, by simpa using hf, hs⟩
+      · cases this
   · rename_i hj
     split at this
     · rename_i k hk
       split at this
-      · rename_i hs; exact Or.inr ⟨by simpa using hj, k, hk, hs⟩
       · cases this
+      · rename_i hf
+        split at this
+        · rename_i hs; exact Or.inr ⟨by simpa using hj, k, hk, by simpa using hf, hs⟩
+        · cases this
     · cases this
     · cases this
+
+theorem admitted_signature (env : Env) (s s' : St) (tx : Tx) (p : Option Nat) (h : Admitted env s tx p s') :
+    (tx.jwk = true ∧ env.sigJwk tx = true) ∨
+    (tx.jwk = false ∧ ∃ k, resolveKey env tx.kid tx.prevs = .ok k ∧ env.sigKey tx k = true) := by
+  rcases admitted_alg_fits_key env s s' tx p h with ⟨a, _, c⟩ | ⟨a, k, hk, _, c⟩
+  · exact Or.inl ⟨a, c⟩
+  · exact Or.inr ⟨a, k, hk, c⟩
+
+/-- the curve switch of `AlgorithmFitsKey` is RFC 7518 §3.4: P-256 ⇒ ES256, P-384 ⇒ ES384, P-521 ⇒ ES512, nothing asked of other curves -/
+theorem alg_fits_ec_iff (alg c : String) :
+    algorithmFitsKey alg (.ec c) = true ↔
+      (c = "P-256" → alg = "ES256") ∧ (c = "P-384" → alg = "ES384") ∧ (c = "P-521" → alg = "ES512") := by
+  unfold algorithmFitsKey algorithmFitsCurve ecAlgOfCurve
+  by_cases h1 : c = "P-256"
+  · subst h1; simp [List.find?]
+  · by_cases h2 : c = "P-384"
+    · subst h2; simp [List.find?]
+    · by_cases h3 : c = "P-521"
+      · subst h3; simp [List.find?]
+      · have e1 : ("P-256" = c) = False := by simp [eq_comm, h1]
+        have e2 : ("P-384" = c) = False := by simp [eq_comm, h2]
+        have e3 : ("P-521" = c) = False := by simp [eq_comm, h3]
+        simp [List.find?, h1, h2, h3, e1, e2, e3]
+
+/-- **a kid-referenced key of another curve never gets a transaction in**: when the key the kid resolves to does not fit
+    the header algorithm, `Add` leaves the whole state as it was — whatever `jws.Verify` (`env.sigKey`) would have said. -/
+theorem alg_must_fit_resolved_key (env : Env) (subs : List Sub) (s : St) (tx : Tx) (p : Option Nat) (k : Nat)
+    (hj : tx.jwk = false) (hk : resolveKey env tx.kid tx.prevs = .ok k)
+    (hf : algorithmFitsKey tx.alg (env.keyShape k) = false) :
+    verifySig env tx = .err "signature" ∧ (add env subs s tx p).1 = s := by
+  have hv : verifySig env tx = .err "signature" := by
+    unfold verifySig
+    simp [hj, hk, hf]
+  refine ⟨hv, ?_⟩
+  unfold add
+  cases h1 : phase1 env s tx with
+  | present => rfl
+  | rejected e => rfl
+  | panicked e => rfl
+  | verified =>
+    exfalso
+    unfold phase1 at h1
+    split at h1
+    · cases h1
+    · unfold verify at h1
+      rw [hv] at h1
+      cases hp : verifyPrevs s.txs tx <;> simp [hp] at h1
+
+/-- non-vacuity + the negative witness for the POSITION of the guard: a P-384 key referred to by kid, header ES256, a JWS
+    library that accepts it (family only). The code's verifier refuses; the same guard applied up front to the embedded key
+    (absent here ⇒ `default: return true`) lets it through. -/
+theorem fit_guard_must_see_the_resolved_key :
+    ∃ (env : Env) (tx : Tx), tx.jwk = false ∧ resolveKey env tx.kid tx.prevs = .ok 4 ∧
+      algorithmFitsKey tx.alg (env.keyShape 4) = false ∧ env.sigKey tx 4 = true ∧
+      verifySig env tx = .err "signature" ∧ verifySigGuardFirst env tx = .ok () := by
+  refine ⟨{ sha := id, sigJwk := fun _ => true, sigKey := fun _ _ => true, kidDid := fun _ => some "did:nuts:c",
+            resolve := fun _ _ => .doc [("did:nuts:c#k1", 4)], keyShape := fun _ => .ec "P-384" },
+          { ref := 9, alg := "ES256", payloadHash := 0, cty := "x/y", jwk := false, kid := "did:nuts:c#k1", sigt := 0, ver := 1,
+            prevs := [1], pal := [], clock := 1 }, ?_⟩
+  decide
+
+example : algorithmFitsKey "ES384" (.ec "P-384") = true ∧ algorithmFitsKey "ES256" (.ec "P-384") = false ∧
+    algorithmFitsKey "ES256" (.ec "P-224") = true ∧ algorithmFitsKey "EdDSA" (.ed 32) = true ∧ algorithmFitsKey "EdDSA" (.ed 31) = false ∧
+    algorithmFitsKey "ES256" .other = true := by decide
 
 /-- **Re-adding changes nothing**: durable and volatile state identical (all shelves, digest, counters, job shelves) and
     no notification (the ledger is part of the state). -/
